@@ -182,22 +182,27 @@ def c16_2(R):
     else:
         R.fail([sm.name, "smoothing-factors", ",".join("%s%d" % c for c in coef)], "the RTT smoothing no longer uses alpha = 1/8, beta = 1/4 (RTTVAR*3/4 + |d|/4, (SRTT*7 + R)/8)", where=sm.where(), instance="smoothing-factors")
     # the RTO of a sample is computed from the UPDATED estimator: in the Subsequent arm calc_rto comes after both stores
-    sub_calls = []
-    for t in sm.calls():
-        if call_matches(t, ("rtte::calc_rto",)):
-            srcs = [trace(sm, a).last_field for a in t.args]
-            if srcs == ["RttState::Subsequent.srtt", "RttState::Subsequent.rttvar"]:
-                sub_calls.append(t)
-    stores = []
+    stores = {}
     for s_ in sm.stmts():
         if s_.place.proj == ["*"]:
             lf = trace(sm, Place({"l": s_.place.local, "p": []})).last_field
             if lf in ("RttState::Subsequent.srtt", "RttState::Subsequent.rttvar"):
-                stores.append(s_)
-    if sub_calls and len(stores) >= 2 and all(point_reaches(sm, st, c) and not point_reaches(sm, c, st) for c in sub_calls for st in stores):
+                stores[lf] = s_
+    sub_calls = [t for t in sm.calls() if call_matches(t, ("rtte::calc_rto",)) and any(d.endswith("=Subsequent") for _c, _t, d, *_ in controlling(sm, t.bb))]
+
+    def new_value(call, arg, field):
+        """the argument is the updated estimate: the field read after its store, or the very value that is stored into the field"""
+        st = stores.get(field)
+        if st is None:
+            return False
+        ta = trace(sm, arg)
+        if ta.last_field == field:
+            return point_reaches(sm, st, call) and not point_reaches(sm, call, st)
+        return bool(st.rv.ops) and st.rv.kind == "use" and ta.key() == trace(sm, st.rv.ops[0]).key() and ta.kind != "param"
+    if sub_calls and len(stores) >= 2 and all(len(c.args) == 2 and new_value(c, c.args[0], "RttState::Subsequent.srtt") and new_value(c, c.args[1], "RttState::Subsequent.rttvar") for c in sub_calls):
         R.ok("rto-from-updated-estimator", sm.name, "calc_rto(*srtt, *rttvar) after both smoothing stores")
     else:
-        R.fail([sm.name, "calc_rto-before-update"], "the RTO stored after a sample is computed before SRTT / RTTVAR are updated: it is not SRTT + 4 * RTTVAR of the new estimate", where=(sub_calls[0].where() if sub_calls else sm.where()), instance="rto-from-updated-estimator")
+        R.fail([sm.name, "calc_rto-before-update"], "the RTO stored after a sample is computed before SRTT / RTTVAR are updated: it is not SRTT + 4 * RTTVAR of the new estimate", where=(list(sub_calls)[0].where() if sub_calls else sm.where()), instance="rto-from-updated-estimator")
     halves = [t for t in sm.calls() if t.is_call and len(t.args) == 2 and t.args[1].kind == "const" and t.args[1].scalar == 2 and "Duration" in (t.callee_full or t.resolved or "") and short_callee(t.resolved).split("::")[-1] == "div"]
     if halves:
         R.ok("first-sample", sm.name, "RTTVAR = R / 2")
